@@ -53,7 +53,7 @@ ASSUMPTIONS = [
 ]
 MANIFEST = {'engine': 'P', 'technique': 'generated SQLite DBs vs in-memory filter'}
 
-ALPHA = ['a', 'b', 'A', 'B', '_', '%', '-', '1', 'é']
+ALPHA = ['a', 'b', 'A', 'B', '_', '%', '-', '1', 'é', '?', '[', ']']
 LETTERS = ['a', 'b', 'A', 'B', '1', 'é']
 FINAL = ['succeeded', 'failed', 'expired', 'submit-failed']
 ALL_STATUS = FINAL + ['waiting', 'running', 'submitted', 'preparing']
@@ -62,7 +62,8 @@ DT_CYCLES = ['20200101T0000Z', '20200101T0600Z', '20200102T0000Z',
              '20210101T0000Z', '20200111T0000Z']
 MESSAGES = {'x': 'the quick brown', 'y': 'Data ready', 'X': 'other',
             'out_1': 'x'}
-FLOWSETS = [[1], [1], [1], [2], [1, 2], [], [3]]
+# (two-digit flow numbers whose text contains a smaller flow number)
+FLOWSETS = [[1], [1], [1], [2], [1, 2], [], [3], [10], [12], [21], [3, 13]]
 
 
 # ---------------------------------------------------------------- generator
@@ -175,7 +176,8 @@ def cases(draw):
             None if ck <= 2 else draw(st.sampled_from(cyc_pool)) if ck <= 5
             else '*' if ck == 6
             else draw(pattern_of([r['c'] for r in rows],
-                                 ['0', '1', '2', 't', 'z', 'T', 'Z'])))
+                                 ['0', '1', '2', 't', 'z', 'T', 'Z', '?', '[',
+                                  ']', '_', '%'])))
         mode = draw(st.sampled_from(['s', 's', 's', 't', 't', 'm']))
         q['mode'] = mode
         if mode == 's':
